@@ -17,7 +17,9 @@ func init() {
 				cfgs = []string{"linux", "linux-race", "darwin", "linux-arm64", "freebsd"}
 			}
 			for _, c := range cfgs {
-				r.use(c)
+				if r.useOpt(c) == nil {
+					continue
+				}
 				c05(r)
 			}
 		})
@@ -180,6 +182,31 @@ func c05(r *Run) {
 			wit = base2.Find([]Start{Entry(fn)}, func(ins ssa.Instruction) bool { return ins == run }, false)
 			s.Visited += base2.Visited
 			r.obW(fmt.Sprintf("C05.R12:detach-before-callbacks#%d", i), "with needDetach=true (and a registered poll) Control(PollDetach) precedes the callbacks, which free the slot", fn, run, wit, "Control(PollDetach) on every path")
+			// once the lock is held (or was not needed) the callbacks are reached on every path that has callbacks: a failed
+			// detach is logged, not returned
+			{
+				lockFail := callResultAtom(ro.lock, false, kP)
+				noCallbacks := func(v ssa.Value) (bool, bool) {
+					b, ok := v.(*ssa.BinOp)
+					if !ok || (b.Op != token.EQL && b.Op != token.NEQ) || !isNilConst(b.Y) {
+						return false, false
+					}
+					x := b.X
+					if ta, ok := x.(*ssa.TypeAssert); ok {
+						x = ta.X
+					}
+					if c, ok := x.(*ssa.Call); ok {
+						if a := asAtomic(c); a != nil && a.Op == "Load" && structFieldOfAddr(a.Addr) == "onEvent.closeCallbacks" {
+							return b.Op == token.EQL, true
+						}
+					}
+					return false, false
+				}
+				ss := &Search{Fn: fn, Stop: isIns(run), CutEdge: cutOn(anyAtom(lockFail, noCallbacks))}
+				wit := ss.Find([]Start{Entry(fn)}, nil, true)
+				s.Visited += ss.Visited
+				r.obW(fmt.Sprintf("C05.R11:runner-completes#%d", i), "unless the lock could not be taken (someone else runs them) or no callback is registered, every path of the callback runner reaches the callbacks - a failing PollDetach does not skip the finalizer", fn, run, wit, "callbacks on every path")
+			}
 			// R5d: the invoked value is node.fn with node walking Load(closeCallbacks) -> .pre
 			r.ob(fmt.Sprintf("C05.R5:lifo-walk#%d", i), "the runner invokes node.fn for node = latest, node.pre, node.pre.pre ... (reverse registration order)", fn, run, lifoWalk(run), "callee is (*callbackNode).fn of a phi over {Load(closeCallbacks), phi.pre}", true)
 		}
